@@ -278,6 +278,20 @@ def _single_calls() -> dict[str, dict[str, Any]]:
         add("nn.logmeanexp(axis positional, keepdims positional)", lambda x: jax.nn.logmeanexp(x, 1, None, True), X)
         add("nn.logmeanexp(axis=None,keepdims=True)", lambda x: jax.nn.logmeanexp(x, keepdims=True), X)
         add("nn.logmeanexp(where=)", lambda x: jax.nn.logmeanexp(x, axis=1, where=x > -0.2), X)
+    # parameters of activations given positionally
+    add("nn.leaky_relu(slope positional)", lambda x: jax.nn.leaky_relu(x, 0.3), X)
+    add("nn.elu(alpha positional)", lambda x: jax.nn.elu(x, 0.5), X)
+    add("nn.celu(alpha positional)", lambda x: jax.nn.celu(x, 0.3), X)
+    add("nn.gelu(approximate positional False)", lambda x: jax.nn.gelu(x, False), X)
+    add("nn.gelu(approximate positional True)", lambda x: jax.nn.gelu(x, True), X)
+    add("nn.softmax(axis positional, where positional)", lambda x: jax.nn.softmax(x, 1, x > -0.1), X)
+    add("nn.log_softmax(axis positional)", lambda x: jax.nn.log_softmax(x, 0), X)
+    add("nn.logsumexp(axis positional, b positional)", lambda x: jax.nn.logsumexp(x, 1, jnp.abs(x) + 1), X)
+    add("nn.glu(axis positional)", lambda x: jax.nn.glu(x, 1), X)
+    add("nn.standardize(axis positional)", lambda x: jax.nn.standardize(x, 0), X)
+    add("nn.one_hot(all positional incl. dtype)", lambda i: jax.nn.one_hot(i, 4, jnp.float32), I, ints=(0, 4))
+    add("nn.hard_tanh positional", lambda x: jax.nn.hard_tanh(x * 3), X)
+    add("nn.relu6/selu/softsign/mish", lambda x: jax.nn.relu6(x * 8) + jax.nn.selu(x) + jax.nn.soft_sign(x) + jax.nn.mish(x), X)
     add("nn.logsumexp(axis=None,keepdims=True)", lambda x: jax.nn.logsumexp(x, keepdims=True), X)
     add("nn.logsumexp(return_sign=True)", lambda x: jax.nn.logsumexp(x, axis=0, b=x, return_sign=True), X)
     add("nn.softmax(axis=None)", lambda x: jax.nn.softmax(x, axis=None), X)
@@ -401,6 +415,9 @@ def _specs_cached() -> list[dict[str, Any]]:
     return _SPECS
 
 
+_EXPLICIT_RE = re.compile(r"(not supported|unsupported|only supports?|not implemented|does not support|cannot be exported|is required|requires|must be|must have|expected \d+ dims|expects? rank)", re.I)
+
+
 def _call_case(case: dict[str, Any], seed: int) -> dict[str, Any]:
     import jax
     from jax2onnx.user_interface import to_onnx
@@ -444,7 +461,17 @@ def _call_case(case: dict[str, Any], seed: int) -> dict[str, Any]:
         return rec
     except Exception as exc:  # noqa: BLE001
         rec["evals"] = 1
-        rec["obs"]["explicitly_rejected"] = 1
+        frames = traceback.extract_tb(exc.__traceback__)
+        inner = frames[-1].filename if frames else ""
+        explicit = isinstance(exc, NotImplementedError) or bool(_EXPLICIT_RE.search(str(exc)))
+        if not explicit and "/jax2onnx/" in inner and isinstance(exc, (ValueError, AttributeError, KeyError, IndexError, AssertionError)):
+            # eager JAX accepts the call; the substitute's own code trips over it (no unsupported-feature message)
+            rec["violations"].append({"family": fam, "kind": "internal_failure", "cls": case["name"].split("@")[0] if "@" not in case["name"] else case["name"],
+                                      "text": f"{case['name']}: valid in eager JAX, fails while traced inside jax2onnx with {type(exc).__name__}: {str(exc)[:160]} ({inner.split('/jax2onnx/')[-1]}:{frames[-1].lineno})"})
+            rec["status"] = "violated"
+            rec["sample"] = {"call": case["name"], "outcome": f"{type(exc).__name__}: {str(exc)[:120]}"}
+            return rec
+        rec["obs"]["explicitly_rejected" if explicit else "rejected_by_library_error"] = 1
         rec["nontrivial"].append(case["key"] + "|rejected")
         rec["status"] = "held"
         rec["sample"] = {"call": case["name"], "outcome": f"{type(exc).__name__}: {str(exc)[:120]}"}
